@@ -366,6 +366,14 @@ pub fn gen_logical(r: &mut Rng, cfg: &Cfg, o: &GenOpts) -> Logical {
         };
         extra.push((name.to_string(), (0..nv).map(|_| gen_header_value(r)).collect()));
     }
+    // a Content-Length header (an ordinary header to the verifier: passed through, signed if listed)
+    if !extra.iter().any(|(n, _)| n == "content-length") && r.chance(1, 4) {
+        let len = match &form_pairs {
+            Some(fp) => form_encode_plain(fp).len(),
+            None => body.len(),
+        };
+        extra.push(("content-length".to_string(), vec![len.to_string().into_bytes()]));
+    }
     // S3-style clients declare the payload digest in a header; make that header truthful most of the time so that
     // anything that trusts it instead of hashing the body becomes observable under body mutations
     if form_pairs.is_none() {
@@ -829,6 +837,10 @@ pub struct Overrides {
     pub no_carrier: bool,
     /// present both carriers: add the other one (well-formed) as well
     pub both_carriers: bool,
+    /// header carrier with `both_carriers`: value of the added X-Amz-Algorithm parameter (default: the correct one)
+    pub both_carriers_query_alg: Option<String>,
+    /// present the *correct* signature in another letter case: 0 = all upper case, 1 = one letter in upper case
+    pub signature_case: Option<u8>,
     /// raw bytes inserted right after the leading '/' of the path, appended to the path, appended to the query
     pub path_prefix_raw: Vec<u8>,
     pub path_suffix_raw: Vec<u8>,
@@ -940,7 +952,18 @@ pub fn render(l: &Logical, cfg: &Cfg, sp: &mut Speller, ov: &Overrides) -> (Wire
     let (kd, kr, ks) = ov.key_scope.clone().unwrap_or((date.clone(), cfg.region.clone(), cfg.service.clone()));
     let key = sha::derive(secret.as_bytes(), &kd, kr.as_bytes(), ks.as_bytes()).ksigning;
     let sig = rm::signature(&key, &sts);
-    let presented = ov.signature.clone().unwrap_or_else(|| sig.clone());
+    let presented = match (ov.signature.clone(), ov.signature_case) {
+        (Some(s), _) => s,
+        (None, Some(0)) => sig.to_ascii_uppercase(),
+        (None, Some(_)) => {
+            let mut b = sig.clone().into_bytes();
+            if let Some(i) = (0..b.len()).rev().find(|i| b[*i].is_ascii_lowercase()) {
+                b[i] = b[i].to_ascii_uppercase();
+            }
+            String::from_utf8(b).unwrap()
+        }
+        (None, None) => sig.clone(),
+    };
 
     // ---- wire
     let mut uri = sp.path(&l.segs, l.trailing, cfg.s3, l.literal_plus_in_path);
@@ -953,7 +976,7 @@ pub fn render(l: &Logical, cfg: &Cfg, sp: &mut Speller, ov: &Overrides) -> (Wire
     uri.extend_from_slice(&ov.path_suffix_raw);
     let mut wire_pairs = pairs.clone();
     if l.carrier == Carrier::Header && ov.both_carriers {
-        wire_pairs.push((b"X-Amz-Algorithm".to_vec(), b"AWS4-HMAC-SHA256".to_vec()));
+        wire_pairs.push((b"X-Amz-Algorithm".to_vec(), ov.both_carriers_query_alg.clone().unwrap_or_else(|| "AWS4-HMAC-SHA256".to_string()).into_bytes()));
     }
     if l.carrier == Carrier::Query && !ov.omit_signature {
         let pos = if sp.level > 0 {
@@ -1145,4 +1168,36 @@ pub fn plus_for_space_in_path(w: &mut Wire) -> bool {
     out.extend_from_slice(&w.uri[q..]);
     w.uri = out;
     changed
+}
+
+pub const SIG_PLACEHOLDER: &str = "5167504c414345484f4c4445525f5349475f5f5f5f5f5f5f5f5f5f5f5f5f5f5f";
+
+/// Render with a placeholder signature, then sign the request *as received* (wire-side reference canonicalisation)
+/// and patch the signature in. Used where the wire bytes are dictated (e.g. a literal body) rather than spelled from
+/// a logical description. Returns None if the http crate refuses the request or the wire form has no canonical form.
+pub fn render_signed_as_received(l: &Logical, cfg: &Cfg, sp: &mut Speller, ov: &Overrides) -> Option<Wire> {
+    let mut ov2 = ov.clone();
+    ov2.signature = Some(SIG_PLACEHOLDER.to_string());
+    let (mut wire, facts) = render(l, cfg, sp, &ov2);
+    let req = crate::exec::build_request(&wire).ok()?;
+    let view = crate::exec::view_of(&req);
+    let signed = ov.signed.clone().unwrap_or_else(|| l.signed.clone());
+    let sig = crate::rm::decide::sign_as(&view, cfg, &facts.credential, &signed, l.t, &l.secret)?;
+    let replace = |hay: &mut Vec<u8>| {
+        let from = SIG_PLACEHOLDER.as_bytes();
+        let mut i = 0;
+        while i + from.len() <= hay.len() {
+            if &hay[i..i + from.len()] == from {
+                hay.splice(i..i + from.len(), sig.bytes());
+                i += sig.len();
+            } else {
+                i += 1;
+            }
+        }
+    };
+    replace(&mut wire.uri);
+    for h in wire.headers.iter_mut() {
+        replace(&mut h.1);
+    }
+    Some(wire)
 }
